@@ -422,10 +422,13 @@ fn enumerate(u: &Unit, ctx: &mut Ctx, tick: &dyn Fn()) {
         }
         Unit::Slivers { ty, lo, hi } => {
             for n in *lo..*hi {
-                // (0,16),(1,16),...,(n-3,16),(n-3,18) then closed: the closing edge is the long one
-                let mut pts: Vec<P4> = (0..n - 2).map(|i| [i as f64, 16.0, 5.0, 7.0]).collect();
-                pts.push([(n - 3) as f64, 18.0, 5.0, 7.0]);
-                pts.push([0.0, 18.0, 5.0, 7.0]);
+                // (0,h),(1,h),...,(n-3,h),(n-3,h+2) then closed, h = 4n: the closing edge is the long one, and the ring
+                // lies so far above the x axis that every single unit edge contributes more to the area sum than
+                // the area itself: losing any one term flips the sign
+                let h = 4.0 * n as f64;
+                let mut pts: Vec<P4> = (0..n - 2).map(|i| [i as f64, h, 5.0, 7.0]).collect();
+                pts.push([(n - 3) as f64, h + 2.0, 5.0, 7.0]);
+                pts.push([0.0, h + 2.0, 5.0, 7.0]);
                 for rev in [false, true] {
                     let mut p = pts.clone();
                     if rev {
@@ -658,6 +661,10 @@ pub fn check(tier: Tier) -> i32 {
             units.push(Unit::Slivers { ty: Ty::PolygonM, lo, hi });
             lo = hi;
         }
+        // beyond: around 2^14, 2^15 (thorough 2^16, 2^17) vertices
+        for c in tier.pick(vec![16384usize, 32768], vec![16384, 32768, 65536, 131072]) {
+            units.push(Unit::Slivers { ty: Ty::PolygonM, lo: c - 2, hi: c + 6 });
+        }
     }
     for ty in if tier == Tier::Quick { vec![Ty::Polygon] } else { ptypes.to_vec() } {
         for first in 0..all_seqs(2, 3).len() {
@@ -678,7 +685,7 @@ pub fn check(tier: Tier) -> i32 {
             tier,
             level: "model_checking",
             engine: "E2 enumerator over lattice vertex sequences on the real Polygon*/Multipatch constructors and macros; oracle = exact i128 shoelace and vertex-sequence comparison (RefRing)",
-            rule: "single ring: every vertex sequence of length 1..5 (thorough 6) over {0,1,2}^2 x declared role x {new, with_rings, polygon!} x {Polygon, PolygonM, PolygonZ} x Z/M patterns {all equal, last differs only in M, only in Z}; two rings: every pair of sequences of length <= 4 over {0,1}^2 (thorough also <= 3 over {0,1,2}^2) x all role vectors; three rings: every triple of length <= 3 over {0,1}^2 x all role vectors; deviations: every slot of 4 base rings x F_xy, and a last vertex 1-8 ulps away from the first in one coordinate; thin rings of EVERY size 4..=bound (one long edge, both orientations, both roles); every ring of 3-4 vertices over {0,1,2}^2 translated by offsets in {0, +-2^27, 2^40}^2; every triangle over the 12x12 (thorough 16x16) grid of coordinates {0, +-1, +-2^52, 2^52+2, -2^130, 2^-30, 2^600, 2^300, -2^-530, 2^-1000; thorough also -(2^52+2), 2^130, -2^600, 2^-530} (both roles), orientation judged by the sign of the exact area computed in arbitrary-precision integers; multipatch: every single patch (length <= 4) x 6 kinds x {new, with_parts, multipatch!}, every pair (length <= 3) x 36 kind pairs; non-trivial = >= 2 rings or a ring of >= 3 vertices",
+            rule: "single ring: every vertex sequence of length 1..5 (thorough 6) over {0,1,2}^2 x declared role x {new, with_rings, polygon!} x {Polygon, PolygonM, PolygonZ} x Z/M patterns {all equal, last differs only in M, only in Z}; two rings: every pair of sequences of length <= 4 over {0,1}^2 (thorough also <= 3 over {0,1,2}^2) x all role vectors; three rings: every triple of length <= 3 over {0,1}^2 x all role vectors; deviations: every slot of 4 base rings x F_xy, and a last vertex 1-8 ulps away from the first in one coordinate; thin rings of EVERY size 4..=bound and around 2^14, 2^15 (thorough 2^16, 2^17) vertices, placed so that every single edge term outweighs the area (one long edge, both orientations, both roles); every ring of 3-4 vertices over {0,1,2}^2 translated by offsets in {0, +-2^27, 2^40}^2; every triangle over the 12x12 (thorough 16x16) grid of coordinates {0, +-1, +-2^52, 2^52+2, -2^130, 2^-30, 2^600, 2^300, -2^-530, 2^-1000; thorough also -(2^52+2), 2^130, -2^600, 2^-530} (both roles), orientation judged by the sign of the exact area computed in arbitrary-precision integers; multipatch: every single patch (length <= 4) x 6 kinds x {new, with_parts, multipatch!}, every pair (length <= 3) x 36 kind pairs; non-trivial = >= 2 rings or a ring of >= 3 vertices",
             bounds: json!({"lattice": "3x3 (single ring), 2x2 (two / three rings)", "max_ring_len": tier.pick(5, 6), "units": units.len()}),
             exhaustive: true,
             assumptions: vec!["orientation is judged for every finite ring against the sign of the exact area sum (arbitrary-precision integers); rings on which f64 cannot represent a term of that sum are reported under the clause 'inexact-arithmetic', which is a listed known finding; closure and vertex preservation also on F_xy values; equality of vertices is IEEE == on the fields the point type has (so -0.0 closes +0.0)".into()],
